@@ -66,11 +66,15 @@ def demo_plan(d):
 
 def run_demo(d, wt):
     kind, f, pkgdir, tags, names = demo_plan(d)
+    try:
+        race = "-race" in json.dumps(json.load(open(os.path.join(d, "meta.json"))).get("demo_cmd", ""))
+    except Exception:
+        race = False
     if kind == "test":
         dst = os.path.join(wt, pkgdir, "zz_seeded_demo_test.go")
         shutil.copy(os.path.join(d, f), dst)
         try:
-            rc, out = sh("go test -tags '%s' -count=1 -timeout 300s -run '^(%s)$' ./%s/" % (tags, "|".join(names), pkgdir), wt, timeout=700)
+            rc, out = sh("go test %s -tags '%s' -count=1 -timeout 300s -run '^(%s)$' ./%s/" % ("-race" if race else "", tags, "|".join(names), pkgdir), wt, timeout=900)
         finally:
             os.remove(dst)
         return rc, out
@@ -104,6 +108,20 @@ def cmd_verify(sid, suite=True):
             if any("TestRetryPolicyTimeout" in f for f in fails):  # known ~1% timing flake on the unchanged tree: re-run once
                 rc, out = sh("go test -count=1 ./test/ 2>&1 | grep -E '^(--- FAIL|panic)' | head", wt)
                 fails = [f for f in fails if "TestRetryPolicyTimeout" not in f] + [l for l in out.splitlines() if l.startswith("--- FAIL")]
+            # timing-sensitive tests of the repository fail sporadically on this (busy) machine on the unchanged tree too:
+            # a failing test is re-run on its own three times; only a test that fails again counts
+            import re as _re
+            confirmed = []
+            for f in fails:
+                name = _re.search(r"--- FAIL: (\S+)", f).group(1).split("/")[0]
+                if name == "TestCache":
+                    confirmed.append(f)
+                    continue
+                rc, out = sh("go test -count=3 -run '^%s$' ./... 2>&1 | grep -E '^--- FAIL' | head -3" % name, wt)
+                if out.strip():
+                    confirmed.append(f)
+            res["suite_failures_first_run"] = fails
+            fails = confirmed
             res["suite_failures_with_patch"] = fails
             res["suite_ok"] = all("TestCache" in f for f in fails)
             res["suite_s"] = round(time.time() - t0)
